@@ -20,7 +20,9 @@ impl Rng {
     }
 
     pub fn random(&mut self) -> f64 {
-        self.seed = (MULTIPLIER * self.seed + INCREMENT) % MODULUS;
+        // MODULUS divides 2^64, so wrapping arithmetic yields the same residue
+        // without overflowing for large seeds.
+        self.seed = MULTIPLIER.wrapping_mul(self.seed).wrapping_add(INCREMENT) % MODULUS;
         self.latest_random()
     }
 
